@@ -1,8 +1,8 @@
 package main
 
 import (
-	"bytes"
 	"fmt"
+	"github.com/jf-tech/omniparser"
 	"sync"
 	"sync/atomic"
 
@@ -51,7 +51,7 @@ func c14Drive(args []string) int {
 	sum := newSummary()
 	golden := make([][]string, len(items))
 	for i, it := range items {
-		golden[i] = fpAll(transcriptOf(it.sch, bytes.NewReader(it.Input), 100000), "full")
+		golden[i] = fpAll(runItem(it, nil), "full")
 	}
 	var events []interface{}
 	for i, it := range items {
@@ -73,13 +73,28 @@ func c14Drive(args []string) int {
 		// fresh Schema objects for every round: their first use is concurrent (a schema runtime that is completed lazily
 		// on first use would be warmed, and the lazy write hidden, by the serial golden run above)
 		fresh := make([]*corpusItem, len(items))
-		for i, it := range items {
-			sch, e, p := newSchema(it.Schema)
-			if e != nil || p != "" {
-				fmt.Println("error: schema", it.Name, e, p)
-				return 3
+		// (items with the same schema bytes share one fresh Schema object, as they do in the corpus: runs with different
+		// external properties on one Schema)
+		mkFresh := func() bool {
+			byText := map[string]omniparser.Schema{}
+			for i, it := range items {
+				sch := byText[string(it.Schema)]
+				if sch == nil {
+					var e error
+					var p string
+					sch, e, p = newSchema(it.Schema)
+					if e != nil || p != "" {
+						fmt.Println("error: schema", it.Name, e, p)
+						return false
+					}
+					byText[string(it.Schema)] = sch
+				}
+				fresh[i] = &corpusItem{Name: it.Name, Format: it.Format, Schema: it.Schema, Input: it.Input, Ext: it.Ext, sch: sch}
 			}
-			fresh[i] = &corpusItem{Name: it.Name, Format: it.Format, Schema: it.Schema, Input: it.Input, sch: sch}
+			return true
+		}
+		if !mkFresh() {
+			return 3
 		}
 		// same schema: for every item in turn, all goroutines start their first transform over one fresh Schema at once
 		var wg sync.WaitGroup
@@ -91,20 +106,15 @@ func c14Drive(args []string) int {
 				go func(g, same int) {
 					defer wg.Done()
 					<-start
-					record("same-schema", g, same, fpAll(transcriptOf(fresh[same].sch, bytes.NewReader(items[same].Input), 100000), "full"))
+					record("same-schema", g, same, fpAll(runItem(fresh[same], nil), "full"))
 				}(g, same)
 			}
 			close(start)
 			wg.Wait()
 		}
 		// and once more on schemas that were never used before, for the mixed phase
-		for i, it := range items {
-			sch, e, p := newSchema(it.Schema)
-			if e != nil || p != "" {
-				fmt.Println("error: schema", it.Name, e, p)
-				return 3
-			}
-			fresh[i] = &corpusItem{Name: it.Name, Format: it.Format, Schema: it.Schema, Input: it.Input, sch: sch}
+		if !mkFresh() {
+			return 3
 		}
 		// different schemas: every goroutine walks the corpus from its own offset
 		start2 := make(chan struct{})
@@ -115,7 +125,7 @@ func c14Drive(args []string) int {
 				<-start2
 				for k := 0; k < len(items); k++ {
 					i := (g/2*7 + k + round) % len(items) // pairs of goroutines meet on the same fresh schema at the same time
-					record("mixed-schemas", g, i, fpAll(transcriptOf(fresh[i].sch, bytes.NewReader(items[i].Input), 100000), "full"))
+					record("mixed-schemas", g, i, fpAll(runItem(fresh[i], nil), "full"))
 				}
 			}(g)
 		}
